@@ -39,6 +39,7 @@ func EncodedSize(v interface{}) int {
 	if rv.Kind() == reflect.Struct {
 		// unaddressable, need to copy to heap, and then get the ptr
 		prv := sd.rvPool.Get().(*reflect.Value)
+		verifPoolGet(verifPoolRV, unsafe.Pointer(prv), nil)
 		defer sd.rvPool.Put(prv)
 		(*prv).Elem().Set(rv)
 		p = (*rvtype)(unsafe.Pointer(prv)).ptr // like `rvPtr` without copy
@@ -73,6 +74,7 @@ func Append(b []byte, v interface{}) ([]byte, error) {
 	if rv.Kind() == reflect.Struct {
 		// unaddressable, need to copy to heap, and then get the ptr
 		prv := sd.rvPool.Get().(*reflect.Value)
+		verifPoolGet(verifPoolRV, unsafe.Pointer(prv), nil)
 		defer sd.rvPool.Put(prv)
 		(*prv).Elem().Set(rv)
 		p = (*rvtype)(unsafe.Pointer(prv)).ptr // like `rvPtr` without copy
@@ -101,6 +103,7 @@ func Decode(b []byte, v interface{}) (int, error) {
 		return 0, err
 	}
 	d := decoderPool.Get().(*tDecoder)
+	verifPoolGet(verifPoolDecoder, unsafe.Pointer(d), nil)
 	n, err := d.Decode(b, rv.UnsafePointer(), sd, maxDepthLimit)
 	decoderPool.Put(d)
 	return n, err
